@@ -1,6 +1,6 @@
 (** C13 correspondence entries. *)
 From Coq Require Import String.
-From BV Require Import Base.Prelude Base.Codec gen.EscapeTables Quote.Quote Quote.Reader.
+From BV Require Import Base.Prelude Base.Codec gen.C13EscapeTables Quote.Quote Quote.Reader.
 
 (** args: <mode> <s>; mode = two letters: f|n (force / if needed) then s|d|b.
     Uses the regenerated flag [positional_escaping]. *)
